@@ -12,7 +12,7 @@ PROP = "C08"
 RULE = (
     "cases: (a) every (SAN DNS name, host) pair of names with 1..K labels over the label alphabet "
     "{a,b,ab,*,a*,*a,a*b,**,xn--a,xn--*,''} (K=2 exhaustive + Hypothesis-sampled 3/4-label pairs in quick; K=3 "
-    "exhaustive in thorough), each also with the host upper-cased; (b) Hypothesis SAN lists of <= 3 entries mixing "
+    "exhaustive in thorough), each also with the host upper-cased, and each wildcard name asked again in upper case with the hosts in a very different order (A-label hosts first, the rest backwards) (the verdict is a function of name and host only); (b) Hypothesis SAN lists of <= 3 entries mixing "
     "DNS and 'IP Address' entries, IPv4/IPv6 hosts in bracketed/zoned/non-canonical spellings, commonName with the "
     "flag on/off, (b') the same lists through the connection-level entry point (_ssl_wrap_socket_and_match_hostname with the TLS wrap stubbed) under the settings in which urllib3 matches the name itself: cert_reqs=OPTIONAL, assert_hostname, a context with check_hostname off, a caller context that enables commonName; (c) pins derived from the true MD5/SHA-1/SHA-256 digests of generated DER blobs by case change, "
     "colon insertion, single-nibble flip, truncation/extension by 1..4 nibbles. Non-trivial = the SAN name has a '*', "
@@ -54,6 +54,11 @@ def _call(cert, host, flag, via_wrapper):
         return "reject", f"ValueError {e}"
     except BaseException as e:  # noqa: BLE001
         return "crash", f"{type(e).__name__}: {e}"
+
+
+def _second_order(nm):
+    """A very different order of the same hosts: A-label hosts first, then the rest backwards."""
+    return [h for h in nm if h.lower().startswith("xn--")] + [h for h in reversed(nm) if not h.lower().startswith("xn--")]
 
 
 WIRED_MODES = ["optional", "assert-hostname", "nocheck-ctx", "caller-ctx-cn"]
@@ -183,6 +188,18 @@ def check_pin(der: bytes, pin: str) -> list[Failure]:
 
 def check_case(case) -> list[Failure]:
     k = case.get("kind")
+    if k == "order":
+        K = 2
+        nm = names(K)
+        dn = case["dn"]
+        if dn not in nm:
+            raise core.InvalidCase
+        first = {h: _call({"subjectAltName": (("DNS", dn),)}, h, False, False)[0] for h in nm}
+        for h in _second_order(nm):
+            again = _call({"subjectAltName": (("DNS", dn.upper()),)}, h, False, False)[0]
+            if again != first[h]:
+                return [Failure("order-dependent", {"first": first[h], "again": again}, f"SAN {dn!r} vs host {h!r}: {first[h]} in enumeration order, {again} for the upper-case spelling asked in another order")]
+        return []
     if k == "wired":
         if case.get("mode") not in WIRED_MODES or (case["mode"] == "assert-hostname" and not case["host"]):
             raise core.InvalidCase
@@ -346,6 +363,19 @@ def run_shard(spec):
                         col.evaluations += 1
                         if nt:
                             col.nontrivial_counted += 1
+        # ---- the verdict is a function of (name, host) only: the same names spelled in upper case, asked about the hosts
+        #      in the opposite order, must get the same answers (names compare case-insensitively)
+        for dn in nm[spec["lo"] : spec["hi"]]:
+            if "*" not in dn or dn.upper() == dn:
+                continue
+            first = {h: _call({"subjectAltName": (("DNS", dn),)}, h, False, False)[0] for h in nm}
+            for h in _second_order(nm):
+                again = _call({"subjectAltName": (("DNS", dn.upper()),)}, h, False, False)[0]
+                col.evaluations += 1
+                if again != first[h]:
+                    case = {"kind": "order", "dn": dn, "host": h, "hosts_before": "all other names of the enumeration, in reverse order"}
+                    col.case(case, True, ["pairs:order"], [Failure("order-dependent", {"first": first[h], "again": again}, f"SAN {dn!r} vs host {h!r}: {first[h]} when asked in enumeration order, {again} for the upper-case spelling asked in another order")], distinct_by_construction=True)
+                    break
     elif part == "ip-pairs":
         # every IP SAN against every IP host in every spelling (plain, bracketed, zoned, SAN with a trailing newline)
         for san_ip in IPS4 + IPS6:
